@@ -144,8 +144,9 @@ public:
     record* entry=pop(data_list);
     if(!entry) //no cached memory available
       return(T());
+    T result=*entry; //read before the record can be reused by a concurrent insert
     push(free_list,entry);
-    return(*entry);
+    return(result);
   }
 };
   
